@@ -60,22 +60,21 @@ func VfC04_IntentABA() {
 //
 //vf:unwind 16
 //vf:paths quick=400000 thorough=4000000
-//vf:bound state event buffer of length quick=2 thorough=3, each slot empty or a symbolic time with <=1 recorded event; names/payloads 1 symbolic byte; times below 2^62
+//vf:bound state event buffer of length quick=2 thorough=4, each slot empty or a symbolic time with <=1 recorded event; names/payloads 1 symbolic byte; times below 2^62
 //vf:stub codec -> identity on tokens; transmit queues recorded
-//vf:nonative
 func VfC04_EventABA() { vfEventABA() }
 
 // VfC04_QueryABA: the same for queries (de-duplication by time and id).
 //
 //vf:unwind 16
 //vf:paths quick=400000 thorough=4000000
-//vf:bound state query buffer of length quick=2 thorough=3, each slot empty or a symbolic time with <=1 recorded id; times below 2^62
+//vf:bound state query buffer of length quick=2 thorough=4, each slot empty or a symbolic time with <=1 recorded id; times below 2^62
 //vf:stub codec -> identity on tokens; transmit queues and transport recorded
 //vf:nonative
 func VfC04_QueryABA() {
 	n := 2
 	if vfTier() == 1 {
-		n = 3
+		n = 4 // a power of two like the default 512: time%3 (64-bit bvurem by 3) in every query is beyond the solvers here
 	}
 	s := vfNewSerf("self", n)
 	vfArbQueryBuffer(s, n)
